@@ -133,6 +133,7 @@ class _ManifoldConnectionInterface(
             ballistic_tol=options.ballistic_tol,
             eps2d=options.eps2d,
             n_workers=options.n_workers,
+            section_normal=config.section.section_normal,
         )
 
     def to_backend_inputs(self, problem: _ConnectionProblem) -> tuple:
@@ -166,14 +167,16 @@ class _ManifoldConnectionInterface(
             section_axis=problem.section_axis,
             section_offset=problem.section_offset,
             plane_coords=problem.plane_coords,
-            direction=direction_u
+            direction=direction_u,
+            section_normal=problem.section_normal,
         )
         
         section_config_s = SynodicMapConfig(
             section_axis=problem.section_axis,
             section_offset=problem.section_offset,
             plane_coords=problem.plane_coords,
-            direction=direction_s
+            direction=direction_s,
+            section_normal=problem.section_normal,
         )
         
         # Extract section data from both manifolds with appropriate directions
